@@ -339,11 +339,51 @@ def sanity_mutants(prop, undecided):
                         "failed_obligations": "; ".join(failed)[:300]})
             log(f"  sanity mutant {name}: exit {p.returncode}")
             if p.returncode == 0:
+                # keep what the child printed: a miss has to be diagnosable afterwards
+                rd = os.path.join(os.environ.get("VERIF_REPLAY_DIR", os.path.join(vlib.VERIF, "replays")), prop)
+                keep = os.path.join(rd, f"sanity-mutant-{name}.log")
+                try:
+                    os.makedirs(rd, exist_ok=True)
+                    with open(keep, "w") as f:
+                        f.write(p.stdout)
+                except OSError:
+                    keep = "(could not be written)"
                 undecided.append({"obligation": "sanity-mutant:" + name,
-                                  "reason": "a kept seeded breaking change is NOT detected by this check any more: the contracts are too weak"})
+                                  "reason": "a kept seeded breaking change is NOT detected by this check any more: the contracts are too weak"
+                                            f" (output of the run on the changed copy: {keep})"})
         finally:
             shutil.rmtree(tmp, ignore_errors=True)
     return out
+
+
+def paired_native_search(prop, f, pair, seed, checker_cmds, ev_extra):
+    """Look for an executable failing input of the failed clauses with the paired native search on the
+    real code.  Returns True when one was found (recorded in f["search"])."""
+    found_input = False
+    sws = Workspace(prop + "-search")
+    try:
+        weave_units(sws, pair["units"])
+        sr = vlib.native_search(sws, pair["crate"], pair["test"], features=pair.get("features"),
+                                targets=(), seed=seed)
+        checker_cmds.append(sr["cmd"])
+        hit = [n for n in f["new"] if n in sr["found"]]
+        if not hit:
+            # a failed contract of a callee/constant shows up as a failing clause of the
+            # function that uses it: accept any clause of this property
+            hit = [n for n in sr["found"] if n.startswith(prop + ".")]
+        if hit:
+            found_input = True
+            f["search_hit"] = hit[0]
+            f["search"] = {"pair": pair, "input": sr["found"][hit[0]], "found": sr["found"],
+                           "evaluations": sr["evaluations"], "output": sr["output"][-1500:]}
+        ev_extra.setdefault("paired_search", []).append(
+            {"for": f["new"], "engine": "native search on the real function", "evaluations": sr["evaluations"],
+             "found_failing_input": found_input, "ran": sr["ran"]})
+    except Undecided:
+        pass
+    finally:
+        sws.cleanup()
+    return found_input
 
 
 def decide(prop, tier, seed):
@@ -383,6 +423,7 @@ def decide(prop, tier, seed):
                 lead["obligations"] = sorted(set(lead["obligations"]) | set(f["obligations"]))
                 lead.setdefault("also_failing_harnesses", []).append(f["harness"]["name"])
                 f["new"] = []
+    reported_with_input = set()
     for f in failures:
         if f.get("out_of_reach"):
             # verifier could not process the changed code: bounded native evaluation as stand-in
@@ -450,34 +491,17 @@ def decide(prop, tier, seed):
                         o["result"] = "undecided"
                 continue
             found_input = bool(pb and pb.get("tests"))
+            pair = f["group"].get("pair")
+            if not found_input and pair and pair.get("kind") == "search":
+                # the harness stubs part of the environment, so Kani's values cannot be executed natively:
+                # obtain an executable failing input for the same clause from the paired native stand-in
+                found_input = paired_native_search(prop, f, pair, seed, checker_cmds, ev_extra)
         else:
             # Verus gives no model: obtain a failing input from the paired search on the real code
             found_input = False
             pair = f["group"].get("pair")
             if pair and pair["kind"] == "search":
-                sws = Workspace(prop + "-search")
-                try:
-                    weave_units(sws, pair["units"])
-                    sr = vlib.native_search(sws, pair["crate"], pair["test"], features=pair.get("features"),
-                                            targets=(), seed=seed)
-                    checker_cmds.append(sr["cmd"])
-                    hit = [n for n in f["new"] if n in sr["found"]]
-                    if not hit:
-                        # a failed contract of a callee/constant shows up as a failing clause of the
-                        # function that uses it: accept any clause of this property
-                        hit = [n for n in sr["found"] if n.startswith(prop + ".")]
-                    if hit:
-                        found_input = True
-                        f["search_hit"] = hit[0]
-                        f["search"] = {"pair": pair, "input": sr["found"][hit[0]], "found": sr["found"],
-                                       "evaluations": sr["evaluations"], "output": sr["output"][-1500:]}
-                    ev_extra.setdefault("paired_search", []).append(
-                        {"for": f["new"], "engine": "native search on the real function", "evaluations": sr["evaluations"],
-                         "found_failing_input": found_input, "ran": sr["ran"]})
-                except Undecided:
-                    pass
-                finally:
-                    sws.cleanup()
+                found_input = paired_native_search(prop, f, pair, seed, checker_cmds, ev_extra)
             elif pair:
                 pf, po, pu = [], [], []
                 try:
@@ -505,8 +529,12 @@ def decide(prop, tier, seed):
                 undecided.append({"obligation": f["new"][0], "reason":
                                   "float-axiom-dependent obligation failed in Verus but no failing input was found by Kani"})
                 continue
+        if found_input and set(f["new"]) <= reported_with_input:
+            continue        # the same clauses were already reported, with a failing input, by another engine of this check
         path, doc = write_replay(prop, f)
         violations += 1
+        if found_input:
+            reported_with_input |= set(f["new"])
         suffix = "" if found_input else " no-failing-input-found"
         lines.append(f"VIOLATION property={prop} replay={path}{suffix}")
         lines.append(f"  failed obligations: {', '.join(f['new'])}")
@@ -593,7 +621,7 @@ def replay(path):
         cmd = ["cargo", "kani", "playback", "-Z", "concrete-playback", "-p", crate]
         if doc.get("features"):
             cmd += ["--features", doc["features"]]
-        with vlib.TargetLock("kani-" + crate) as target:
+        with vlib.TargetLock("kani-" + crate, ws) as target:
             rc, out, to, _ = vlib.run(cmd + ["--lib", "--", t["name"]], cwd=ws.ws, timeout=900,
                                       env={"CARGO_TARGET_DIR": os.path.join(target, "playback")})
         log(out[-3000:])
@@ -625,7 +653,7 @@ def warm():
                 try:
                     weave_units(ws, grp["units"])
                     feats = next((registry.UNITS[u].get("features") for u in grp["units"] if registry.UNITS[u].get("crate") == grp["crate"]), None)
-                    with vlib.TargetLock("kani-" + grp["crate"]) as target:
+                    with vlib.TargetLock("kani-" + grp["crate"], ws) as target:
                         cmd = ["cargo", "kani", "-p", grp["crate"]] + vlib.KANI_FLAGS + ["--only-codegen", "--target-dir", target]
                         if feats:
                             cmd += ["--features", feats]
@@ -643,7 +671,7 @@ def warm():
                     cmd = ["cargo", "test", "--offline", "-p", grp["crate"], "--lib", "--no-run"]
                     if grp.get("features"):
                         cmd += ["--features", grp["features"]]
-                    with vlib.TargetLock("native-" + grp["crate"]) as target:
+                    with vlib.TargetLock("native-" + grp["crate"], ws) as target:
                         r, out, to, secs = vlib.run(cmd, cwd=ws.ws, timeout=1800, env={"RUSTFLAGS": "--cfg verif_search", "CARGO_TARGET_DIR": target})
                     log(f"warm native {grp['crate']}: rc={r} {secs:.0f}s")
                 except Undecided as u:
